@@ -210,22 +210,22 @@ inductive GExec {σ : Type} (g0 : σ) : GSys σ → Prop
   | init : GExec g0 { g := g0, lock := none, pc := fun _ => .idle }
   | step {s s' : GSys σ} : GExec g0 s → GStep s s' → GExec g0 s'
 
-/-- the micro-steps of `Artifact(i)` on an outdated struct node `s`, as the owner performs them
-    starting in state `g`: one `.Value()` pull per dependency (each followed by reading the value
-    the owner keeps locally), then the store with the values read -/
-def artifactTrace (F : Nat) (i : Nat) (s : SNode V) : Graph V → List Nat → List V → List (Graph V → Graph V)
-  | _, [], vals => [fun g => g.set i (.struct (s.executed g (vals.map some)))]
-  | g, d :: ds, vals =>
-    (fun g => (Eval F g d).1) :: artifactTrace F i s (Eval F g d).1 ds (vals ++ [val (Eval F g d).1 d])
-
-/-- the micro-steps of `Artifact(i)` for ANY processor (it may skip inputs): one `.Value()` pull
-    per dependency the processor reads, then the store with the entries collected -/
-def artifactTraceM (F : Nat) (i : Nat) (s : SNode V) : Graph V → List Nat → List (Option V) → List (Graph V → Graph V)
-  | _, [], acc => [fun g => g.set i (.struct (s.executed g acc))]
-  | g, d :: ds, acc =>
-    if s.reads acc then
-      (fun g => (Eval F g d).1) :: artifactTraceM F i s (Eval F g d).1 ds (acc ++ [some (val (Eval F g d).1 d)])
-    else artifactTraceM F i s g ds (acc ++ [none])
+/-- the micro-steps of `Artifact(i)` on an outdated struct node `s` for ANY processor (any pull
+    strategy), as the owner performs them starting in state `g`: one `.Value()` pull per input the
+    strategy selects (each followed by reading the value the owner keeps locally), then the store
+    with the entries collected -/
+def artifactTraceS (F : Nat) (i : Nat) (s : SNode V) (next : List (Option V) → Option Nat) (ds : List Nat) :
+    Nat → Graph V → List (Option V) → List (Graph V → Graph V)
+  | 0, _, es => [fun g => g.set i (.struct (s.executed g es))]
+  | n+1, g, es =>
+    match next es with
+    | none => [fun g => g.set i (.struct (s.executed g es))]
+    | some k =>
+      match ds[k]? with
+      | none => [fun g => g.set i (.struct (s.executed g es))]
+      | some d =>
+        (fun g => (Eval F g d).1) ::
+          artifactTraceS F i s next ds n (Eval F g d).1 (es.set k (some (val (Eval F g d).1 d)))
 
 /-! ### the fine-grained locked system WITH histories: critical sections are many micro-steps -/
 
